@@ -373,3 +373,29 @@ int bad_final_pad__blake2s_final(st14_b2s *S, void *out, size_t outlen) {
 	memcpy(out, S->h, outlen);
 	return 0;
 }
+
+/* ------------------------------------------------------------------ LEN-UNIT */
+/* the whole call accounted at once: the part of length * 8 above 2^32 is dropped */
+int bad_len_unit__input(st14_ctx *context, const uint8_t *m, size_t length) {
+	uint32_t addTemp;
+	if (ST14_ADD(context, (uint32_t)(length << 3)))
+		return context->Corrupted;
+	while (length--) {
+		context->Message_Block[context->Message_Block_Index++] = *m;
+		if (context->Message_Block_Index == 64)
+			st14_process(context);
+		m++;
+	}
+	return 0;
+}
+
+/* final bits: the amount is a variable, but bounded by the test in front */
+int ok_len_unit__final_bits(st14_ctx *context, uint8_t bits, unsigned int length) {
+	uint32_t addTemp;
+	if (length >= 8) {
+		return 1;
+	}
+	ST14_ADD(context, length);
+	context->Message_Block[context->Message_Block_Index++] = bits;
+	return 0;
+}
